@@ -1,5 +1,6 @@
 import Uhppote.Gen.Addr
 import Uhppote.Proofs.Addr
+import Uhppote.Gen.Source
 /-! # C15 — address parsing accepts exactly IPv4[:port] under each role's port rule
 
 `Model.Addr.parse` = regex pre-filter (unanchored search, modelled as a nondeterministic
@@ -174,5 +175,14 @@ example : parse Gen.Addr.listen "192.168.1.100:60000".toList = .err := by decide
 example : parse Gen.Addr.bind "192.168.1.100".toList = .ok (192, 168, 1, 100, 0) := by decide
 example : parse Gen.Addr.controller "qwerty".toList = .err := by decide
 example : hasQuad "1.2.3".toList = false := by decide
+
+/-- no address parser keeps anything between calls (patterns compiled by whichever role is parsed first): the package-level variables of the four packages (regenerated) are these ten - the
+    codec's patterns and kind table, the two card-format patterns, the bind-port mutex, `NOTIMEOUT` and three error
+    values - every one of them initialised when its package is loaded. A `sync.Once`, a lazily filled map or a cache
+    would have to appear here. -/
+theorem C15_package_state : Gen.Source.packageVars = ["encoding/UTO311-L0x/UT0311-L0x.go:var re", "encoding/UTO311-L0x/UT0311-L0x.go:var tBool,tByte,tUint16,…",
+    "encoding/UTO311-L0x/UT0311-L0x.go:var vre", "types/card-format.go:var w26", "types/card-format.go:var wAny",
+    "uhppote/UT0311.go:var NOTIMEOUT", "uhppote/UT0311.go:var guard", "uhppote/errors.go:var ErrIncorrectController",
+    "uhppote/errors.go:var ErrInvalidCard", "uhppote/errors.go:var ErrInvalidListenerAddress"] := by decide
 
 end Uhppote.Props.C15
